@@ -307,3 +307,16 @@ func ghostHeap(name string) (string, string) {
 func ghostMapHeap(name string) (string, string) {
 	return "R:ghostmap_" + sanitize(name), "(Array Int (Array (Seq Int) (Seq Int)))"
 }
+
+// lazySyms: theory symbols with quantified axioms are only included in the queries that mention them.
+func (e *Engine) lazySyms() {
+	e.syms.add("bytes2nat", `(declare-fun bytes2nat ((Seq Int)) Int)
+(declare-fun nat2bytes (Int) (Seq Int))
+(assert (forall ((n Int)) (! (=> (>= n 0) (= (bytes2nat (nat2bytes n)) n)) :pattern ((nat2bytes n)))))
+(assert (forall ((b (Seq Int))) (! (>= (bytes2nat b) 0) :pattern ((bytes2nat b)))))
+(assert (= (bytes2nat (as seq.empty (Seq Int))) 0))`)
+	e.syms.alias("nat2bytes", "bytes2nat")
+	e.syms.add("bcmp", `(declare-fun bcmp ((Seq Int) (Seq Int)) Int)
+(assert (forall ((a (Seq Int)) (b (Seq Int))) (! (and (<= (- 1) (bcmp a b)) (<= (bcmp a b) 1) (= (bcmp a b) (- (bcmp b a))) (= (= (bcmp a b) 0) (= a b))) :pattern ((bcmp a b)))))
+(assert (forall ((a (Seq Int)) (b (Seq Int)) (c (Seq Int))) (! (=> (and (<= (bcmp a b) 0) (<= (bcmp b c) 0)) (<= (bcmp a c) 0)) :pattern ((bcmp a b) (bcmp b c)))))`)
+}
